@@ -4,6 +4,7 @@ package sim
 // status a kubelet would have produced, and stored with a chosen age.
 
 import (
+	"strings"
 	"fmt"
 	"time"
 
@@ -206,6 +207,11 @@ func (s *Sim) injectForeignPod(ns, name, node string, lbls map[string]string, ow
 	p := &corev1.Pod{
 		ObjectMeta: metav1.ObjectMeta{Namespace: ns, Name: name, Labels: lbls},
 		Spec:       corev1.PodSpec{Containers: []corev1.Container{{Name: "main", Image: "foreign:1"}}},
+	}
+	if strings.HasPrefix(ownerDS, "StatefulSet/") {
+		name := strings.TrimPrefix(ownerDS, "StatefulSet/")
+		p.OwnerReferences = []metav1.OwnerReference{{APIVersion: "apps/v1", Kind: "StatefulSet", Name: name, UID: types.UID("uid-sts-" + name), Controller: bptr(true)}}
+		ownerDS = ""
 	}
 	if ownerDS != "" {
 		p.OwnerReferences = []metav1.OwnerReference{{APIVersion: "apps/v1", Kind: "DaemonSet", Name: ownerDS, UID: types.UID("uid-" + ownerDS), Controller: bptr(true)}}
